@@ -177,8 +177,10 @@ class ForcePlatformsDataBlock(Block):
             ForcePlatformData._build(stream, format, n_frames) for _ in range(n_plats)
         ]
         block = ForcePlatformsDataBlock(start_time, frequency, n_frames)
-        block._plat_map = [int(channel) for channel in plat_map]
-        block._platforms = platforms
+        # through add_platform, like the other channel-mapped blocks, so that
+        # a map that names a channel twice is refused
+        for channel, platform in zip(plat_map, platforms):
+            block.add_platform(platform, channel=int(channel))
 
         return block
 
